@@ -122,7 +122,7 @@ def run(ctx):
     rng = np.random.RandomState(ctx.seed + 9)
     recs = []
     with tmp_dir(ctx) as d:
-        for k in range(90 if ctx.quick else 900):
+        for k in range(200 if ctx.quick else 1500):
             recs += records_for(ctx, d, rng, k, len(recs) + 1)
             if ctx.abort:
                 return
